@@ -94,6 +94,25 @@ def shouldShift (ctx : PCtx) (ps : List Int) : Bool :=
     else if !less && !more then onEq
     else false
 
+/-- Can the pending operator `ctx = (level, associativity)` be weighed against an incoming operator
+with the readings `ps`?  Not when readings lie both above and below the pending level, and not when
+all readings tie and the pending operator has no associativity (a prefix operator). -/
+def decidable (lv : Int) (assoc : Bool) (ps : List Int) : Bool :=
+  let more := ps.any fun p => decide (p > lv)
+  let less := ps.any fun p => decide (p < lv)
+  !(more && less) && (more || less || assoc)
+
+/-- Every conflict of the operator grammar is resolved by the declared precedences: operators that
+share a text have one rule of greatest level, and every pending operator (the winning binary rules,
+the prefix operators) can be weighed against every incoming binary / postfix operator.  Such a table's
+grammar must be accepted by the generator; any other is rejected as an unresolved conflict. -/
+def OpTable.resolvable (t : OpTable) : Bool :=
+  (t.bin.all fun b => (t.binWinner b.text).isSome) &&
+  let incoming := (List.range t.bin.length).map t.binIn ++ (List.range t.post.length).map t.postIn
+  let winners := (List.range t.bin.length).filter fun i => t.binWinner (t.bin.getD i default).text == some i
+  (winners.all fun i => incoming.all fun ps => decidable (t.binLevel i) true ps) &&
+  ((List.range t.un.length).all fun u => incoming.all fun ps => decidable (t.unLevel u) false ps)
+
 mutual
   def parseExpr (t : OpTable) : Nat → PCtx → List OpTok → Option (ETree × List OpTok)
     | 0, _, _ => none
